@@ -10,7 +10,11 @@ SPEC = {
     "rule": ("rapid-generated ammo models (internal/ammogen: four formats, all layout knobs, in-file directives) x provider `headers` "
              "lists whose names overlap / do not overlap the entries' headers (incl. Host) x ssl on/off x disable-keep-alives x 1-4 "
              "instances x 1-2 passes x target answers {2 bytes, empty, 5 kB, 100 kB, chunked/streamed small and 12 kB}; header values may be "
-             "empty (the ammo then defines the header with nothing in it); gun kinds: http, connect (plain target only), and - one ssl case "
+             "empty (the ammo then defines the header with nothing in it); raw files: in one file in two the size line of two entries in "
+             "three also counts a line break written after the request (CRLF, LF, CRLFCRLF or LFLF inside the sized block, as "
+             "phantom-style ammo generators write it; ammogen Layout.RawTail) - with and without a body, next to entries that end exactly "
+             "with the body, bodies of 1 B - 20 KiB: the request that arrives must still be the header block plus the Content-Length "
+             "bytes that follow it; gun kinds: http, connect (plain target only), and - one ssl case "
              "in three - http2 against a TLS target that negotiates h2, keep-alives then disabled in every second case; for the http and "
              "http2 guns one case in three writes the target as a DNS name (`localhost:<port>`, the docs' `target: [hostname]:443`) instead "
              "of the listener's IP literal, a quarter of those with dial.dns-cache: false (by default the gun factory resolves the name "
@@ -37,6 +41,9 @@ SPEC = {
                "TestWire/target_by_name": 0.16, "TestWire/target_by_name_host_defaulted": 0.1,
                "TestWire/target_by_name_host_defaulted_ssl": 0.055, "TestWire/target_by_name_host_defaulted_http2": 0.018,
                "TestWire/target_by_name_dns_cache_off": 0.04, "TestWire/target_ip_literal_host_defaulted": 0.25,
+               "TestWire/raw_sized_block_extends_past_body": 0.028, "TestWire/raw_sized_block_extends_past_bodiless_request": 0.026,
+               "TestWire/raw_file_mixes_exact_and_extended_blocks_with_body": 0.009,
+               "TestWire/raw_sized_block_extends_past_body_two_passes": 0.011,
                "TestKeepAliveGaps/connection_reused_after_pause_gt_1s": 0.3,
                "TestKeepAliveGaps/reused_after_pause_idle_conn_timeout_default": 0.12,
                "TestKeepAliveGaps/reused_after_pause_idle_conn_timeout_written": 0.12,
@@ -44,7 +51,8 @@ SPEC = {
     "manifest": {
         "technique": "model-based property testing (rapid): generated ammo + gun config run through the real engine against a recording target; multiset/sequence comparison with the model",
         "text": ("The multiset of requests the target received must equal the model: method, request URI, body, every ammo header, a "
-                 "configured header only where the entry lacks that name, Host from the ammo else the target's host as the config names it "
+                 "configured header only where the entry lacks that name (a raw entry's body is the Content-Length bytes after its header "
+                 "block, whatever else its sized block holds after them), Host from the ammo else the target's host as the config names it "
                  "(IP literal or DNS name, never the address a name resolved to), TLS iff ssl, extra "
                  "headers only from the set Go's transport adds; with one instance the sequence equals file order; connections <= "
                  "instances with keep-alive, one per request without - for the http, connect and http2 guns alike, judged both by the "
